@@ -117,7 +117,7 @@ def run (line : String) : String :=
       -- `uniqL_refines` proves that it cannot differ
       let wk ← if mode = "disk" then some 1 else (← field "w=" w).toNat?
       let l1 := showRecs "U" stats (loopRun sortMerge o chunks wk false input)
-      let l2 := if input.length > 3000 then s1 else
+      let l2 := if input.length > 300 then s1 else
         showRecs "U" stats (loopRun sortMergeAnti o chunks 1 true input)
       let s1 := if l1 = s1 ∧ l2 = s1 then s1 else s1 ++ " LAYERS-DIFFER"
       if dm = "*" then pure s1
